@@ -460,10 +460,14 @@ fn main() {
     install_panic_hook();
     watchdog(if tier == Tier::Quick { 900 } else { 6 * 3600 }, id.clone());
     let mut ctx = Ctx::new(&id, tier, seed, replay);
-    match id.as_str() {
+    let outcome = std::panic::catch_unwind(std::panic::AssertUnwindSafe(|| match id.as_str() {
         "C19" => run_c19(&mut ctx),
         "C07" => run_c07(&mut ctx),
         _ => std::process::exit(2),
+    }));
+    if let Err(e) = outcome {
+        let msg = e.downcast_ref::<&str>().map(|s| s.to_string()).or_else(|| e.downcast_ref::<String>().cloned()).unwrap_or_else(|| "<non-string panic>".into());
+        ctx.harness_error(format!("a panic escaped the phases: {}", msg));
     }
     std::process::exit(ctx.finish());
 }
